@@ -604,3 +604,47 @@ def r14_exit_methods(ctx, rule='R14x'):
     if n == 0:
         run.ok(rule, 'dataflows/', 'dataflows', 'no __exit__ method is defined in the library (control example: detected)')
     return n
+
+
+# ---------------------------------------------------------------------- R14g: leaving a generator early does not keep the work going
+def r14_generator_exit(ctx, modules, rule='R14g'):
+    """When the consumer of a generator goes away (a later step failed, the run was aborted) the generator is closed: GeneratorExit is
+    raised at its yield.  Code that answers this by pulling more from the upstream - draining the current or the remaining resources
+    "to finish the job" - resumes the steps before it, and those commit what they were in the middle of: an interrupted checkpoint is
+    closed and renamed into place.  Handlers of GeneratorExit / BaseException / a bare except and `finally` blocks of the generators
+    in the given modules therefore neither loop over, drain or advance anything, nor yield."""
+    from sa.model import is_drain_call
+    run, repo, res = ctx.run, ctx.repo, ctx.res
+    run.rule(rule, 'NO-WORK-ON-CLOSE: in the generators of %s no handler of GeneratorExit / BaseException / bare except and no finally '
+                   'block contains a loop, a drain, next() or a yield' % ', '.join(sorted(m.rsplit('.', 1)[-1] for m in modules)))
+    n = 0
+    for f in sorted(repo.functions.values(), key=lambda f: f.qualname):
+        if f.module.name not in modules or isinstance(f.node, ast.Lambda) or not f.is_generator:
+            continue
+        n += 1
+        bad = None
+        for t in own_nodes(f.node):
+            if not isinstance(t, ast.Try):
+                continue
+            blocks = [t.finalbody]
+            for h in t.handlers:
+                names = []
+                if h.type is None:
+                    names = ['BaseException']
+                else:
+                    names = [u(x) for x in (h.type.elts if isinstance(h.type, ast.Tuple) else [h.type])]
+                if any(nm.split('.')[-1] in ('GeneratorExit', 'BaseException') for nm in names):
+                    blocks.append(h.body)
+            for b in blocks:
+                for st in b:
+                    for x in ast.walk(st):
+                        if isinstance(x, (ast.For, ast.While, ast.Yield, ast.YieldFrom)):
+                            bad = bad or x
+                        if isinstance(x, ast.Call) and (is_drain_call(res, x) or (isinstance(x.func, ast.Name) and x.func.id == 'next')):
+                            bad = bad or x
+        run.check(bad is None, rule, where(repo, bad) if bad is not None else f.where, f.qualname,
+                  'nothing is pulled or yielded while the generator is being closed',
+                  'a handler that runs when the generator is closed (its consumer is gone: a later step failed) goes on pulling from the '
+                  'upstream: the steps before it resume and commit what the failure interrupted - a checkpoint is closed and renamed '
+                  'although the run did not complete')
+    return n
